@@ -15,106 +15,6 @@ struct Case {
     data: Bytes,
 }
 
-fn lit(b: &[u8]) -> Piece {
-    Piece::Lit(b.to_vec())
-}
-fn csi1(p: Sym, tail: &[u8]) -> Tok {
-    vec![lit(b"\x1b["), Piece::Num(p), lit(tail)]
-}
-fn csi2(p: Sym, q: Sym, tail: &[u8]) -> Tok {
-    vec![lit(b"\x1b["), Piece::Num(p), lit(b";"), Piece::Num(q), lit(tail)]
-}
-
-/// The ~70-token alphabet of the exhaustive part (ANSI emulation). No text-area resize request in it.
-fn alphabet() -> Vec<Tok> {
-    let mut a: Vec<Tok> = Vec::new();
-    // printables
-    a.push(vec![lit(b"A")]);
-    a.push(vec![Piece::Run(b'x', Sym::WMinus1, 0)]);
-    a.push(vec![Piece::Run(b'y', Sym::W, 0)]);
-    // C0
-    for c in [8u8, 9, 10, 13, 12, 0x7F] {
-        a.push(vec![lit(&[c])]);
-    }
-    // ESC x
-    for c in b"78cDMEH" {
-        a.push(vec![lit(&[0x1B, *c])]);
-    }
-    // cursor position
-    a.push(vec![lit(b"\x1b[H")]);
-    a.push(csi2(Sym::H, Sym::W, b"H"));
-    a.push(csi2(Sym::HPlus1, Sym::WPlus1, b"H"));
-    a.push(csi2(Sym::Max, Sym::Max, b"f"));
-    a.push(csi2(Sym::Lit(0), Sym::Lit(0), b"H"));
-    // relative / absolute moves with the parameter set {none,1,mid,size,size+1,9999} spread over the finals
-    a.push(vec![lit(b"\x1b[A")]);
-    a.push(csi1(Sym::HPlus1, b"A"));
-    a.push(csi1(Sym::Max, b"k"));
-    a.push(vec![lit(b"\x1b[B")]);
-    a.push(csi1(Sym::H, b"B"));
-    a.push(csi1(Sym::Max, b"B"));
-    a.push(vec![lit(b"\x1b[C")]);
-    a.push(csi1(Sym::W, b"C"));
-    a.push(csi1(Sym::Max, b"C"));
-    a.push(csi1(Sym::WHalf, b"D"));
-    a.push(csi1(Sym::Max, b"j"));
-    a.push(csi1(Sym::Lit(0), b"D"));
-    a.push(csi1(Sym::Lit(1), b"E"));
-    a.push(csi1(Sym::Max, b"E"));
-    a.push(csi1(Sym::Lit(1), b"F"));
-    a.push(csi1(Sym::Max, b"F"));
-    a.push(csi1(Sym::WPlus1, b"G"));
-    a.push(csi1(Sym::Lit(0), b"G"));
-    a.push(csi1(Sym::HPlus1, b"d"));
-    a.push(csi1(Sym::Lit(0), b"d"));
-    a.push(csi1(Sym::Max, b"e"));
-    a.push(csi1(Sym::Max, b"a"));
-    a.push(csi1(Sym::WPlus1, b"'"));
-    // tabs
-    a.push(csi1(Sym::Lit(1), b"Y"));
-    a.push(csi1(Sym::B255, b"Y"));
-    a.push(csi1(Sym::Lit(1), b"Z"));
-    a.push(csi1(Sym::B255, b"Z"));
-    a.push(vec![lit(b"\x1b[3g")]);
-    a.push(vec![lit(b"\x1b[2 d")]);
-    // margins / origin / wrap
-    a.push(csi2(Sym::Lit(2), Sym::HMinus1, b"r"));
-    a.push(csi2(Sym::HHalf, Sym::HHalf, b"r"));
-    a.push(csi2(Sym::Lit(0), Sym::HPlus1, b"r"));
-    a.push(csi2(Sym::H, Sym::Lit(1), b"r"));
-    a.push(vec![lit(b"\x1b[r")]);
-    a.push(vec![lit(b"\x1b[?69h")]);
-    a.push(csi2(Sym::Lit(2), Sym::WMinus1, b"s"));
-    a.push(csi2(Sym::WHalf, Sym::WPlus1, b"s"));
-    a.push(vec![lit(b"\x1b[?69l")]);
-    a.push(vec![lit(b"\x1b[?6h")]);
-    a.push(vec![lit(b"\x1b[?7l")]);
-    a.push(vec![lit(b"\x1b[?7h")]);
-    a.push(vec![lit(b"\x1b[=r")]);
-    a.push(csi2(Sym::Lit(0), Sym::HHalf, b"=m"));
-    a.push(vec![lit(b"\x1b[1;"), Piece::Num(Sym::HHalf), lit(b";2;"), Piece::Num(Sym::WHalf), lit(b"r")]);
-    // save / restore / reset
-    a.push(vec![lit(b"\x1b[s")]);
-    a.push(vec![lit(b"\x1b[u")]);
-    a.push(vec![lit(b"\x1b[!p")]);
-    // scroll / insert / delete / erase (counts bounded by the screen: magnitude is C03's subject)
-    a.push(csi1(Sym::Lit(1), b"S"));
-    a.push(csi1(Sym::HPlus1, b"S"));
-    a.push(csi1(Sym::Lit(1), b"T"));
-    a.push(csi1(Sym::HPlus1, b"T"));
-    a.push(csi1(Sym::Lit(1), b"L"));
-    a.push(csi1(Sym::H, b"M"));
-    a.push(csi1(Sym::WHalf, b"@"));
-    a.push(csi1(Sym::WPlus1, b"P"));
-    a.push(csi1(Sym::WPlus1, b"X"));
-    a.push(vec![lit(b"\x1b[2J")]);
-    a.push(vec![lit(b"\x1b[J")]);
-    a.push(vec![lit(b"\x1b[1K")]);
-    a.push(csi1(Sym::W, b"b"));
-    a.push(vec![lit(b"\x1b[4h")]);
-    a
-}
-
 // ---------------------------------------------------------------------------------------- every control function on prepared screens
 const AF_INTERS: [&str; 8] = ["", " ", "$", "*", "?", "=", "!", "<"];
 const AF_STATES: u64 = 10;
@@ -405,7 +305,7 @@ fn main() {
     );
     eng.assume("a sequence ends at its first violation; a panic or abort ends the history (C01's subject; random streams run in worker processes so that an abort cannot take the check down); streams containing the resize request CSI 8;h;w t are outside the statement (discarded)");
 
-    let alpha = alphabet();
+    let alpha = stream::alphabet();
     let n = alpha.len() as u64;
     eng.extra("alphabet_tokens", icyv::serde_json::json!(n));
     // quick: all 1- and 2-token sequences on the five sizes, all 3-token sequences on 80x25 and 2x2; thorough: 3 tokens on all five
